@@ -238,11 +238,13 @@ def main():
                      "closed": bool(not np.any(g.edge_on_boundary))} for n, g, _ in grids]
     import c10_dual
     import c10_mass
+    import c10_bc
     steps = [("geometry", lambda: dump_geometry(out, grids)),
              ("tables", lambda: dump_tables(out, grids, thorough)),
              ("pointwise", lambda: search_pointwise(out, grids, rng, thorough)),
              ("dual", lambda: c10_dual.run(out, grids, rng, thorough)),
              ("bc", lambda: c10_mass.bc_conformity(out, grids, rng, thorough)),
+             ("bcmodel", lambda: c10_bc.dump(out, grids if thorough else grids[:5], rng, thorough, c10_mass.bc_optsets)),
              ("mass", lambda: c10_mass.mixed_mass(out, grids, rng, thorough)),
              ("mass_scalar", lambda: c10_mass.mixed_mass(out, grids, rng, thorough, "scalar")),
              ("mass_vector", lambda: c10_mass.mixed_mass(out, grids, rng, thorough, "vector"))]
